@@ -147,3 +147,45 @@ V("c05-optimize-flag-missing", "C05", "R05.5", "dask_array/_collection.py",
   "        out.__dict__[\"_lowered_expr_optimize_graph\"] = True\n", "", expect="Array.optimize")
 V("c05-twin-kwargs-order", "C05", "-", "dask_array/_collection.py",
   "    def compute(self, **kwargs):\n        return DaskMethodsMixin.compute(self._pinned(), **kwargs)", "    def compute(self, **kwargs):\n        # delegate\n        return DaskMethodsMixin.compute(self._pinned(), **kwargs)", twin=True)
+
+# ---------------------------------------------------------------------------- C06
+V("c06-blockwise-token-drops-align", "C06", "R06.1", "dask_array/_blockwise.py",
+  "                self.new_axes,\n                self.align_arrays,\n                self.concatenate,\n                *args_token,",
+  "                self.new_axes,\n                self.concatenate,\n                *args_token,", expect="Blockwise::align_arrays")
+V("c06-partialreduce-token-drops-keepdims", "C06", "R06.1", "dask_array/reductions/_reduction.py",
+  "                self.func, self.array, self.split_every, self.keepdims, self.dtype\n", "                self.func, self.array, self.split_every, self.dtype\n", expect="PartialReduce::keepdims")
+V("c06-reduction-token-drops-weights", "C06", "R06.1", "dask_array/reductions/_reduction.py",
+  "                self.output_size,\n                self.weights,\n            )", "                self.output_size,\n            )", expect="::weights")
+V("c06-rechunk-name-drops-operands", "C06", "R06.1", "dask_array/_rechunk.py",
+  "            non_array = [self.operand(p) for p in self._parameters if p != \"array\"]\n            return \"rechunk-merge-rc1\" + hash_buffer_hex(_dumps5((self.array._name, *non_array)))",
+  "            return \"rechunk-merge-rc1\" + hash_buffer_hex(_dumps5((self.array._name, self.operand(\"_chunks\"))))", expect="Rechunk::")
+V("c06-shuffle-name-forgets-axis", "C06", "R06.1", "dask_array/_shuffle.py",
+  "        return f\"{self.operand('name')}-{self.deterministic_token}\"", "        return f\"{self.operand('name')}-{_tokenize_deterministic(self.array, self.indexer)}\"", expect="Shuffle::axis")
+V("c06-new-conditional-pin", "C06", "R06.3", "dask_array/_shuffle.py",
+  "        return f\"{self.operand('name')}-{self.deterministic_token}\"", "        if self.operand('name').startswith('pinned'):\n            return self.operand('name')\n        return f\"{self.operand('name')}-{self.deterministic_token}\"", expect="Shuffle")
+V("c06-with-chunks-name-ignores-chunks", "C06", "R06.2", "dask_array/io/_from_array.py",
+  "        name = f\"{self._name}-rechunk-{tokenize(self.chunks, chunks)}\"", "        name = f\"{self._name}-rechunk-{tokenize(self.chunks)}\"", expect="FromArray._with_chunks")
+V("c06-accept-slice-name-ignores-slice", "C06", "R06.2", "dask_array/io/_from_array.py",
+  "        name = f\"{self._name}-getitem-{tokenize(old_region, region_index, new_region)}\"", "        name = f\"{self._name}-getitem-{tokenize(old_region)}\"", expect="FromArray._accept_slice")
+V("c06-rootalias-init-deleted", "C06", "R06.3", "dask_array/_expr.py",
+  "    _parameters = [\"array\", \"name\"]\n\n    def __init__(self, *args, **kwargs):\n        # A non-trivial __init__ disables SingletonExpr's dedup-by-_name\n        # (it only dedups when cls.__init__ is object.__init__).\n        pass\n",
+  "    _parameters = [\"array\", \"name\"]\n", expect="RootAlias")
+V("c06-fromgraph-lower-once-deleted", "C06", "R06.3", "dask_array/io/_from_graph.py",
+  "    def lower_once(self, lowered):\n        # An opaque graph with materialized dependencies — nothing to lower.\n        # Must never enter the (name-keyed) lowering cache: a persisted\n        # collection carries its original raw root name, and a later tree\n        # containing that raw subtree would get this node (and its futures)\n        # silently spliced in on a cache hit.\n        return self\n",
+  "", expect="FromGraph")
+V("c06-rootalias-lower-once-caches", "C06", "R06.3", "dask_array/_expr.py",
+  "        # would get this pin spliced into its middle on a cache hit.\n        return self\n", "        # would get this pin spliced into its middle on a cache hit.\n        return lowered.setdefault(self._name, self)\n", expect="RootAlias")
+V("c06-mapblocksoutput-unlowered-inputs", "C06", "R06.3", "dask_array/_map_blocks.py",
+  "    input_exprs = [expr.lower_completely() for expr in input_exprs]\n", "    input_exprs = list(input_exprs)\n", expect="MapBlocksOutput")
+V("c06-fromarray-exact-enters-cache", "C06", "R06.3", "dask_array/io/_from_array.py",
+  "        if self.operand(\"_name_is_exact\"):\n            return self\n        return super().lower_once(lowered)", "        return super().lower_once(lowered)", expect="FromArray.lower_once")
+V("c06-operand-assigned-in-hook", "C06", "R06.4", "dask_array/_expr.py",
+  "    def _simplify_down(self):\n        return None\n\n\nclass ChunksOverride", "    def _simplify_down(self):\n        self.arr = self.arr.simplify()\n        return None\n\n\nclass ChunksOverride", expect="FinalizeComputeArray._simplify_down")
+V("c06-lower-cache-written-elsewhere", "C06", "R06.5", "dask_array/_materialize.py",
+  "    name = expr._name\n    chunks = expr.chunks\n", "    name = expr._name\n    chunks = expr.chunks\n    if name in _LOWER_CACHE:\n        return _LOWER_CACHE[name]\n", expect="_materialize")
+V("c06-freeze-stores-under-child-name", "C06", "R06.5", "dask_array/_expr.py",
+  "            return lowered.setdefault(self._name, array)\n", "            return lowered.setdefault(array._name, array)\n", expect="ChunksFreeze.lower_once")
+V("c06-new-pinned-class", "C06", "R06.1", "dask_array/_expr.py",
+  None, "\n\nclass Named(ArrayExpr):\n    _parameters = [\"array\", \"name\"]\n\n    @functools.cached_property\n    def _name(self):\n        return self.operand(\"name\")\n\n    @functools.cached_property\n    def chunks(self):\n        return self.array.chunks\n\n    def _layer(self):\n        return {}\n", expect="Named")
+V("c06-twin-tokenizer-reordered", "C06", "-", "dask_array/reductions/_reduction.py",
+  "                self.func, self.array, self.split_every, self.keepdims, self.dtype\n", "                self.func, self.array, self.keepdims, self.split_every, self.dtype\n", twin=True)
